@@ -11,7 +11,7 @@ if [ "$demo" != "-" ]; then
 fi
 for p in "$@"; do
   mkdir -p /tmp/mutant-evidence /tmp/mutant-replays
-  out=$(cd /verif && VERIF_WORK_DIR=/tmp/mutant-work VERIF_EVIDENCE_DIR=/tmp/mutant-evidence VERIF_REPLAYS_DIR=/tmp/mutant-replays FURAX_REPO="$wt" timeout 3000 ./check "$p" --tier quick 2>&1); rc=$?
+  out=$(cd /verif && VERIF_WORK_DIR=/tmp/mutant-work-$(basename $wt) VERIF_EVIDENCE_DIR=/tmp/mutant-evidence VERIF_REPLAYS_DIR=/tmp/mutant-replays FURAX_REPO="$wt" timeout 3000 ./check "$p" --tier quick 2>&1); rc=$?
   echo "check $p exit=$rc :: $(echo "$out" | grep -E '^VIOLATION|^KNOWN' | head -3 | tr '\n' ' ')"
   echo "$out" | grep -E "^$p quick" | cut -c1-300
   for r in $(echo "$out" | grep -oE 'replay=[^ ]+' | head -2 | cut -d= -f2); do
